@@ -81,12 +81,14 @@ func (d *DiscoverRoutesWithPeerIDs) GetValueOptions() directive.ValueOptions {
 // directives are equivalent, and the new directive does not superceed the
 // old, then the new directive will be merged (de-duplicated) into the old.
 func (d *DiscoverRoutesWithPeerIDs) IsEquivalent(other directive.Directive) bool {
-	od, ok := other.(DiscoverRoutes)
+	od, ok := other.(*DiscoverRoutesWithPeerIDs)
 	if !ok {
 		return false
 	}
 
-	return d.localPeerID == od.DiscoverRoutesLocalPeerID()
+	return d.protocolID == od.protocolID &&
+		d.localPeerID == od.localPeerID &&
+		d.remotePeerID == od.remotePeerID
 }
 
 // Superceeds checks if the directive overrides another.
